@@ -197,6 +197,22 @@ SPECS["C12"] = dict(
     parts=[router_part("edns", "TestVerifC12", ["zz_verif_c12_test.go", "zz_verif_c03_test.go"])],
 )
 
+SPECS["C10"] = dict(
+    level="model_checking",
+    engine="E3 evx + subprocess",
+    state_based=True,
+    technique="exhaustive enumeration of rule lists x queries on the real router (loaded through run()) against a reference interpreter; configuration errors enumerated against the real binary",
+    claim="For every rule list up to the length bound over the complete rule alphabet (domain none/A/B, reverse, reject, forward; sets sharing entries; cache on/off) and 8 queries, "
+          "the client's rcode, the set of upstreams contacted and the forwarded question equal the first-match reference interpreter; and the real binary rejects every generated "
+          "configuration with an unknown key (at each nesting level), unknown or duplicate tags with a non-zero exit and no panic, while the matching good configuration starts.",
+    trusted="scripted upstreams at the Upstream interface; tcp listener seam; YAML decoding is exercised only in the subprocess part.",
+    rule="see evidence rule written by the harness",
+    assumptions=["'reverse' on a rule without a domain condition has no effect (the condition 'always holds')", "a rule with both reject and forward is a reject rule"],
+    parts=[router_part("rules", "TestVerifC10", ["zz_verif_c10_test.go"], params={"quick": {"MAXLEN": 2}, "thorough": {"MAXLEN": 3}}),
+           dict(name="config", pkg="app/router", run="TestVerifC10Config", go="go", engines=("choice", "report"), shards=1,
+                files={"harness/router/zz_verif_c10cfg_test.go": "app/router/zz_verif_c10cfg_test.go"}, budget={"quick": 120, "thorough": 120})],
+)
+
 
 # --------------------------------------------------------------------------------------------
 # Properties not (yet) claimed. Kept current: every property without a SPECS entry must be here.
